@@ -24,6 +24,7 @@ type synthEntry struct {
 	Time int    `json:"time"`
 	ID   string `json:"id"` // clock id bytes as string (may be empty)
 	Hash int    `json:"hash"`
+	Made int    `json:"made,omitempty"` // how the object came to its present state: 0 struct literal; 1 setters; 2 setters, after other values were set first; 3 other hash set first, final values written to the exported fields; 4 value copy of another entry, fields overwritten
 }
 
 type c19Prog struct {
@@ -103,6 +104,11 @@ func genC19(t *rapid.T) c19Prog {
 			p.Pool[i].Hash = h
 		}
 	}
+	if rapid.IntRange(0, 2).Draw(t, "made") == 0 {
+		for i := range p.Pool {
+			p.Pool[i].Made = rapid.IntRange(0, 4).Draw(t, "madeHow")
+		}
+	}
 	p.Perm = rapid.SliceOfN(rapid.IntRange(0, 1<<20), n+3, n+3).Draw(t, "perm")
 	p.Dups = rapid.SliceOfN(rapid.IntRange(0, n-1), 0, 3).Draw(t, "dups")
 	if rapid.IntRange(0, 3).Draw(t, "long") == 0 {
@@ -136,7 +142,38 @@ func keyOf(e iface.IPFSLogEntry) string {
 	return fmt.Sprintf("%s/%d/%x", e.GetHash().String(), e.GetClock().GetTime(), e.GetClock().GetID())
 }
 
+// mk builds the entry object. The comparators are functions of the entry's current clock and hash; how the object got
+// them (literal, setters, an earlier value overwritten through a setter or through the exported field, a value copy) is
+// generated and must not matter.
 func mk(s synthEntry) iface.IPFSLogEntry {
+	other := hashOf((s.Hash + 17) % 64)
+	otherClock := entry.NewLamportClock([]byte("zz"), s.Time/2+7)
+	switch s.Made % 5 {
+	case 1, 2:
+		e := &entry.Entry{LogID: "L", Payload: []byte("p"), V: 2}
+		if s.Made%5 == 2 {
+			e.SetHash(other)
+			e.SetClock(otherClock)
+		}
+		e.SetHash(hashOf(s.Hash))
+		e.SetClock(entry.NewLamportClock([]byte(s.ID), s.Time))
+		return e
+	case 3:
+		e := &entry.Entry{LogID: "L", Payload: []byte("p"), V: 2}
+		e.SetHash(other)
+		e.SetClock(otherClock)
+		e.Hash = hashOf(s.Hash)
+		e.Clock = entry.NewLamportClock([]byte(s.ID), s.Time)
+		return e
+	case 4:
+		src := &entry.Entry{LogID: "L", Payload: []byte("p"), V: 2}
+		src.SetHash(other)
+		src.SetClock(otherClock)
+		c := *src
+		c.Hash = hashOf(s.Hash)
+		c.Clock = entry.NewLamportClock([]byte(s.ID), s.Time)
+		return &c
+	}
 	return &entry.Entry{
 		LogID:   "L",
 		Payload: []byte("p"),
